@@ -4,6 +4,7 @@ import os
 JOBS = int(os.environ.get('VERIF_JOBS', '16'))
 HARNESS_TIMEOUT = dict(quick=600, thorough=2400)
 KANI_TOTAL_TIMEOUT = dict(quick=1500, thorough=7200)
+PLAYBACK_TIMEOUT = 420
 
 # placeholders substituted into harness files (/verif/kani/<crate>/*.rs) per tier
 # table sizes (max_inflight) for which every @steps harness is instantiated
@@ -30,6 +31,7 @@ KANI = dict(
         # (source file the child module is appended to, harness file, module name)
         modules=[
             ('src/state.rs', 'state_v4.rs', 'verif_kani'),
+            ('src/v5/state.rs', 'state_v5.rs', 'verif_kani'),
         ],
     ),
     rumqttd=dict(
@@ -42,10 +44,13 @@ KANI = dict(
 CONFIRM = {}
 
 NATIVE = dict(
-    rumqttc=dict(modules=[('src/state.rs', 'state_v4.rs', 'verif_native')]),
-    rumqttd=dict(modules=[]),
+    rumqttc=dict(modules=[('src/state.rs', 'state_v4.rs', 'verif_native'),
+                          ('src/mqttbytes/topic.rs', 'topic_spec.rs', 'verif_native'),
+                          ('src/v5/mqttbytes/mod.rs', 'topic_spec.rs', 'verif_native')]),
+    rumqttd=dict(modules=[('src/protocol/mod.rs', 'topic_spec.rs', 'verif_native')]),
 )
-NATIVE_ENV = dict(quick=dict(VERIF_NMAX=3, VERIF_DEPTH=9), thorough=dict(VERIF_NMAX=4, VERIF_DEPTH=12))
+DIGEST_COPIES = {'topic-copies-agree': 3}
+NATIVE_ENV = dict(quick=dict(VERIF_NMAX=3, VERIF_DEPTH=9, VERIF_TOPIC_LEN=4, VERIF_FILTER_LEN=4), thorough=dict(VERIF_NMAX=4, VERIF_DEPTH=12, VERIF_TOPIC_LEN=5, VERIF_FILTER_LEN=4))
 
 _CLIENT_STATE_TRUSTED = [
     'Kani 0.68 / CBMC 6.11 (bit-precise; machine arithmetic exact, overflow checks on)',
@@ -55,6 +60,47 @@ _CLIENT_STATE_TRUSTED = [
 ]
 
 PROPS = dict(
+    C07=dict(
+        verus=[], kani=['rumqttc'], native=['rumqttc'],
+        scope='rumqttc MqttState v4+v5: next_pkid (complete: all limits), outgoing_publish / subscribe / unsubscribe / pubrel id range and freshness, inflight counter exact (inflight == occupied slots + pending releases), collision only while the id is held, v5 CONNACK receive-maximum',
+        residual='the select! guard `!inflight_full && !collision` and "resumes as soon as an ack frees the window" are async event-loop code (unverified composition); the state-level facts they rely on are the obligations here',
+        trusted_base=_CLIENT_STATE_TRUSTED,
+        assumptions=['bounded in table size (max_inflight) only: quick n=2 (outgoing_publish n=1,2), thorough n=1..4; next_pkid is complete for all limits 1..=65535'],
+    ),
+    C10=dict(
+        verus=[], kani=['rumqttc'],
+        scope='rumqttc MqttState v4+v5: handle_incoming_{publish,pubrel,puback,pubrec,pubcomp}, outgoing_{puback,pubrec,disconnect,subscribe,unsubscribe,ping}: reply kind/id, manual_acks, unsolicited acks are errors with bookkeeping unchanged, exactly one Outgoing event per written packet',
+        residual='Network::readb batching / flush and the order in which EventLoop pops events are async code (unverified composition); handle_incoming_packet dispatch (pushes Event::Incoming first) is read, not verified (Instant::now + large enum clone are outside CBMC reach in reasonable time)',
+        trusted_base=_CLIENT_STATE_TRUSTED,
+        assumptions=['incoming QoS 2 id table bounded to 8 bits in the inbound harnesses (real table: 65536 bits); ack ids full u16'],
+    ),
+    C11=dict(
+        verus=[], kani=[], native=['rumqttc'],
+        scope='rumqttc v4 MqttState::clean: order and content of the returned requests for all well-formed states (bounded table), and the history lemma: after any publish / ack-oldest script clean() returns the unacknowledged publishes in send order, wrap-around included',
+        residual='EventLoop::clean ordering (state first, channel second, PubAcks dropped), next_request preferring `pending`, pending.clear() on !session_present are async code: unverified composition',
+        trusted_base=['rustc as compiled; exhaustive enumeration driver in native/rumqttc/state_v4.rs'],
+        assumptions=['BOUNDED stand-in: CBMC cannot inspect the Vec<Request> returned by clean() (stack overflow / OOM, measured), so the contract of clean() is checked by exhaustive native enumeration of all well-formed states with max_inflight <= 3 (quick) / 4 (thorough) and all scripts of length <= 9 / 12'],
+    ),
+    C18=dict(
+        verus=[], kani=['rumqttc'],
+        scope='REDUCED SCOPE: the ping-flag protocol of MqttState v4+v5 only (outgoing_ping, handle_incoming_pingresp, clean): an unanswered PINGREQ is reported at the next ping, an answered one never is, collision timeout after two pings',
+        residual='"at least once per keep-alive interval", "no later than the second interval", keep-alive zero never pings, connect timeout: all live in tokio::select!/time::timeout branches; no contract within reach of Verus or Kani expresses virtual time — NOT decided',
+        trusted_base=_CLIENT_STATE_TRUSTED + ['std::time::Instant::now stubbed (FFI clock)'],
+        assumptions=['timing clauses of C18 are not covered'],
+    ),
+    C09=dict(
+        verus=['window', 'tracker'], kani=[],
+        scope='rumqttd Outgoing::{free_slots,register_ack,register_pubrec,register_pubcomp} under the window invariant WIN (ids consecutive in the 1..=100 cycle, <= 100 entries) incl. the lemma WIN => ids non-zero and pairwise distinct; Tracker::{try_ready,pause} wake-up table (IncomingAck resumes InflightFull/Caughtup)',
+        residual='Outgoing::push_forwards (impl Iterator + parking_lot lock: outside Verus) and the call-site bound in forward_device_data (at most free_slots() items when qos != 0) are not under contract in this revision; unsolicited ack => that connection only and no-lost-wakeup across router turns are compositions in handle_device_payload/consume',
+        assumptions=['stand-in declarations for parking_lot::Mutex, flume::Sender, Notification, DataRequest (held, never touched by the verified functions)'],
+    ),
+    C12=dict(
+        verus=[], kani=[], native=['rumqttc', 'rumqttd'],
+        scope='matches / valid_filter / valid_topic / has_wildcards in rumqttc/src/mqttbytes/topic.rs, rumqttc/src/v5/mqttbytes/mod.rs, rumqttd/src/protocol/mod.rs',
+        residual='strings longer than the bound; characters outside the enumerated alphabet (the functions only compare bytes with / + # $ and levels with each other)',
+        trusted_base=['rustc / std str::split, contains, starts_with as compiled'],
+        assumptions=['BOUNDED stand-in (no deductive verifier here reasons about str): exhaustive over the stated finite space, not a proof for longer strings'],
+    ),
     C02=dict(
         verus=[], kani=['rumqttc'], native=['rumqttc'],
         scope='rumqttc MqttState (v4): handle_incoming_{puback,pubrec,pubcomp}, outgoing_publish, outgoing_pubrel/save_pubrel, clean — inductive-step contracts over all well-formed states',
